@@ -10,6 +10,8 @@ import (
 const promPkg = "github.com/prometheus/client_golang/prometheus"
 
 type vecInfo struct {
+	id      int
+	parent  *vecInfo
 	name    string
 	kind    string // counter, histogram, gauge
 	labels  []string
@@ -22,7 +24,15 @@ type metricInfo struct {
 	kind string
 }
 
+func (v *vecInfo) root() *vecInfo {
+	for v.parent != nil {
+		v = v.parent
+	}
+	return v
+}
+
 type sinkEvent struct {
+	vecID  int
 	metric string
 	op     string
 	names  []string
@@ -94,7 +104,8 @@ func registerProm(p *Program) {
 			t := e.prog.namedType(promPkg, typ)
 			c := e.newCell(t)
 			ot := e.prog.namedType(promPkg, optT)
-			ps.vecs[c] = &vecInfo{name: e.optsName(a[0], ot), kind: kind, labels: e.stringSlice(a[1]), curried: map[string]*StrV{}}
+			e.nextID++
+			ps.vecs[c] = &vecInfo{id: e.nextID, name: e.optsName(a[0], ot), kind: kind, labels: e.stringSlice(a[1]), curried: map[string]*StrV{}}
 			return PtrV{C: c}
 		}
 	}
@@ -107,7 +118,8 @@ func registerProm(p *Program) {
 			t := types.NewPointer(e.prog.namedType(promPkg, typ))
 			c := e.newCell(t.Elem())
 			ot := e.prog.namedType(promPkg, optT)
-			vi := &vecInfo{name: e.optsName(a[0], ot), kind: kind}
+			e.nextID++
+			vi := &vecInfo{id: e.nextID, name: e.optsName(a[0], ot), kind: kind}
 			ps.metrics[c] = &metricInfo{vec: vi, lvs: map[string]*StrV{}, kind: kind}
 			return IfaceV{T: t, V: PtrV{C: c}}
 		}
@@ -121,7 +133,7 @@ func registerProm(p *Program) {
 			vc := a[0].(PtrV).C
 			vi := ps.vecs[vc]
 			m := a[1].(*MapV)
-			nv := &vecInfo{name: vi.name, kind: vi.kind, labels: vi.labels, curried: map[string]*StrV{}}
+			nv := &vecInfo{id: vi.id, parent: vi, name: vi.name, kind: vi.kind, labels: vi.labels, curried: map[string]*StrV{}}
 			for k, v := range vi.curried {
 				nv.curried[k] = v
 			}
@@ -216,7 +228,7 @@ func registerProm(p *Program) {
 					}
 				}
 			}
-			e.sinks = append(e.sinks, sinkEvent{metric: mi.vec.name, op: op, names: mi.vec.labels, lvs: mi.lvs, f: f})
+			e.sinks = append(e.sinks, sinkEvent{vecID: mi.vec.root().id, metric: mi.vec.name, op: op, names: mi.vec.labels, lvs: mi.lvs, f: f})
 			return nil
 		}
 	}
@@ -232,6 +244,101 @@ func registerProm(p *Program) {
 		p.reg("(*"+promPkg+"."+t+").Collect", noop)
 	}
 
+	// counter read-back: sum of the recorded deltas of one child
+	sumEvents := func(e *Exec, vi *vecInfo, want map[string]*StrV, unit string) *Term {
+		tc := e.tc
+		total := tc.Const(64, 0)
+		for _, ev := range e.sinks {
+			if ev.vecID != vi.id {
+				continue
+			}
+			match := tc.Bool(true)
+			for k, v := range want {
+				lv, ok := ev.lvs[k]
+				if !ok {
+					match = tc.Bool(false)
+					break
+				}
+				match = tc.And(match, e.strEq(lv, v))
+			}
+			if match.IsFalse() {
+				continue
+			}
+			var d *Term
+			switch ev.op {
+			case "inc":
+				d = tc.Const(64, 1)
+			default:
+				t, u := e.floatBaseInt(ev.f)
+				if unit == "ns" && u != "ns" || unit == "int" && u != "int" && u != "const" {
+					panic(unsupported{"counter unit mismatch: " + u + " vs " + unit})
+				}
+				d = t
+			}
+			total = tc.Bin(OAdd, total, tc.Ite(match, d, tc.Const(64, 0)))
+		}
+		return total
+	}
+	p.reg("verif:verifCounterValue", func(e *Exec, g *G, a []Value) Value {
+		ps := e.promSt()
+		vi := ps.vecs[a[0].(PtrV).C]
+		if vi == nil {
+			panic(unsupported{"verifCounterValue on unknown vector"})
+		}
+		unit := strArg(a[1])
+		vals := e.sliceToValues(a[2].(SliceV))
+		var free []string
+		for _, l := range vi.labels {
+			if _, ok := vi.curried[l]; !ok {
+				free = append(free, l)
+			}
+		}
+		if len(vals) != len(free) {
+			panic(unsupported{"verifCounterValue label arity"})
+		}
+		want := map[string]*StrV{}
+		for k, v := range vi.curried {
+			want[k] = v
+		}
+		for i, l := range free {
+			want[l] = vals[i].(*StrV)
+		}
+		return sumEvents(e, vi.root(), want, unit)
+	})
+	p.reg("verif:verifCounterScalar", func(e *Exec, g *G, a []Value) Value {
+		ps := e.promSt()
+		mi := ps.metrics[a[0].(IfaceV).V.(PtrV).C]
+		return sumEvents(e, mi.vec.root(), map[string]*StrV{}, "int")
+	})
+	p.reg("verif:verifAllLabelValues", func(e *Exec, g *G, a []Value) Value {
+		var vals []Value
+		for _, ev := range e.sinks {
+			vals = append(vals, concStr(ev.metric))
+			for _, n := range ev.names {
+				vals = append(vals, concStr(n), ev.lvs[n])
+			}
+		}
+		st := types.Typ[types.String]
+		sl := e.makeSlice(st, e.tc.Const(64, uint64(len(vals))), len(vals))
+		for i, v := range vals {
+			e.store(sl.G.E[i], v)
+		}
+		return sl
+	})
+	p.reg("verif:verifLabelLeaksAddr", func(e *Exec, g *G, a []Value) Value {
+		s := a[0].(*StrV)
+		switch s.Kind {
+		case SHostPort, SIPText:
+			return e.tc.Bool(true)
+		case SPortText:
+			return e.tc.Bool(!s.Port.IsConst())
+		case SBytes:
+			return e.tc.Bool(true)
+		case SOpaque:
+			return e.tc.Bool(true) // text of unknown origin in a label: treat as a leak candidate
+		}
+		return e.tc.Bool(false)
+	})
 	// harness access to the sink log
 	p.reg("verif:verifSinkN", func(e *Exec, g *G, a []Value) Value { return e.tc.Const(64, uint64(len(e.sinks))) })
 	p.reg("verif:verifSinkMetric", func(e *Exec, g *G, a []Value) Value {
